@@ -18,6 +18,14 @@
 //!  * users: the real VirtIOBlk::new / VirtIOSocket::new / VirtIOConsole::size / VirtIONetRaw::new
 //!    / VirtIO9p::new over both transports with the same schedules; observed value = capacity(),
 //!    guest_cid(), size(), mac_address(), mount_tag().
+//!  * x86-64 hypercall transport (`run_hyp`, transport kind 3): the real `HypPciTransport` (constructed by
+//!    `HypPciTransport::new` from the same minimal PCI function; directly and as `SomeTransport::HypPci`) with every
+//!    hypercall served by the same emulated device: each single hypercall READ of the generation byte (offset 21 of the
+//!    common configuration region) or of the device-specific region is a slot of the update schedule.  The multi-field
+//!    reads of the five drivers and `transport.read_consistent(..)` run with the schedules above and with BURSTS: one
+//!    update in each of 1..12 consecutive attempts, at every position inside the attempt.  Monitors 1311 / 1312 with
+//!    the PCI-case closure (the trait's default loop, one-byte generation: Proofs/HypConfigProofs.v); line 1310 (the
+//!    model predicts result and accesses) for closures of 1/2/4/8-byte fields.
 use crate::hal::{self, Ev, LedgerHal};
 use crate::mmio::{self, MmioDev};
 use crate::scen::common::err_code;
@@ -38,6 +46,7 @@ use virtio_drivers::device::virtio_9p::VirtIO9p;
 use virtio_drivers::transport::mmio::{MmioTransport, VirtIOHeader};
 use virtio_drivers::transport::pci::bus::{ConfigurationAccess, DeviceFunction, PciRoot};
 use virtio_drivers::transport::pci::PciTransport;
+use virtio_drivers::transport::x86_64::HypPciTransport;
 use virtio_drivers::transport::{SomeTransport, Transport};
 use virtio_drivers::Error;
 use zerocopy::{FromBytes, Immutable, IntoBytes};
@@ -217,24 +226,60 @@ impl ConfigurationAccess for PciCam {
 }
 
 // ---------------------------------------------------------------- a transport on a fresh device
-/// tk: 0 legacy MMIO, 1 modern MMIO, 2 PCI. `len`: bytes of the MMIO window / `length` of the PCI capability.
+/// tk: 0 legacy MMIO, 1 modern MMIO, 2 PCI, 3 x86-64 hypercall PCI (the model's PCI case: lines carry 2).
+/// `len`: bytes of the MMIO window / `length` of the PCI capability.
 #[derive(Clone, Copy, Debug)]
 pub(crate) struct Geo { pub(crate) tk: u8, pub(crate) present: bool, pub(crate) len: u64, pub(crate) delta: usize }
 impl Geo {
-    pub(crate) fn base(&self) -> usize { if self.tk == 2 { PBASE + PCI_CFG_OFF as usize + self.delta } else { HBASE + self.delta + 0x100 } }
+    pub(crate) fn base(&self) -> usize { if self.tk == 3 { (BAR_PADDR + PCI_CFG_OFF) as usize + self.delta } else if self.tk == 2 { PBASE + PCI_CFG_OFF as usize + self.delta } else { HBASE + self.delta + 0x100 } }
     /// what the transport holds: bytes (MMIO) / u32 words (PCI)
-    pub(crate) fn wlen(&self) -> u64 { if self.tk == 2 { if self.present { self.len / 4 } else { 0 } } else { self.len } }
-    pub(crate) fn gen_bits(&self) -> u32 { if self.tk == 2 { 8 } else { 32 } }
-    pub(crate) fn enc(&self) -> [u128; 4] { [self.tk as u128, self.present as u128, self.wlen() as u128, self.base() as u128] }
-    pub(crate) fn name(&self) -> &'static str { match (self.tk, self.present) { (0, _) => "legacy", (1, _) => "modern", (_, true) => "pci", _ => "pci_nocap" } }
+    pub(crate) fn wlen(&self) -> u64 { if self.tk >= 2 { if self.present { self.len / 4 } else { 0 } } else { self.len } }
+    pub(crate) fn gen_bits(&self) -> u32 { if self.tk >= 2 { 8 } else { 32 } }
+    pub(crate) fn enc(&self) -> [u128; 4] { [self.tk.min(2) as u128, self.present as u128, self.wlen() as u128, self.base() as u128] }
+    pub(crate) fn name(&self) -> &'static str { match (self.tk, self.present) { (0, _) => "legacy", (1, _) => "modern", (2, true) => "pci", (2, _) => "pci_nocap", (_, true) => "hyp", _ => "hyp_nocap" } }
 }
-pub(crate) enum Tp { M(MmioTransport<'static>), P(PciTransport), S(SomeTransport<'static>) }
-macro_rules! with_t { ($tp:expr, $t:ident, $e:expr) => { match $tp { Tp::M($t) => $e, Tp::P($t) => $e, Tp::S($t) => $e } } }
+pub(crate) enum Tp { M(MmioTransport<'static>), P(PciTransport), S(SomeTransport<'static>), H(HypPciTransport) }
+macro_rules! with_t { ($tp:expr, $t:ident, $e:expr) => { match $tp { Tp::M($t) => $e, Tp::P($t) => $e, Tp::S($t) => $e, Tp::H($t) => $e } } }
+
+// ---------------------------------------------------------------- the hypervisor (transport kind 3)
+/// every hypercall of the real HypPciTransport lands here (hook `set_hyp_io_backend`): physical addresses inside BAR0 are
+/// served by the same register emulations as the PCI transport's MMIO windows
+struct HypDev { st: St, present: bool, cfg_off: u64, cfg_len: u64 }
+thread_local! { static HYPDEV: RefCell<Option<HypDev>> = const { RefCell::new(None) }; }
+/// what the hypervisor leaves in the bytes of the result register beyond the size asked for
+const HYP_GARBAGE: u64 = 0xa5c3_965a_3cf0_0ff1;
+fn hyp_backend(write: bool, addr: u64, size: usize, data: u64) -> u64 {
+    HYPDEV.with(|h| {
+        let h = h.borrow();
+        let Some(d) = h.as_ref() else { return 0 };
+        let w = size.min(8) as u8;
+        let rel = addr.wrapping_sub(BAR_PADDR as u64);
+        let v = if rel < 56 {
+            let mut c = Common(d.st.clone());
+            if write { c.write(rel, w, data & wmask(w)); 0 } else { c.read(rel, w) }
+        } else if d.present && rel >= d.cfg_off && rel - d.cfg_off < d.cfg_len {
+            let mut c = CfgWin(d.st.clone());
+            if write { c.write(rel - d.cfg_off, w, data & wmask(w)); 0 } else { c.read(rel - d.cfg_off, w) }
+        } else if (0x100..0x104).contains(&rel) || (0x200..0x300).contains(&rel) { 0 }
+        else {
+            // anywhere else: recorded at its distance from the device-specific region (modulo 2^64), so that it can never
+            // look like an access inside
+            let mut s = d.st.borrow_mut();
+            let cur = s.cur as u128;
+            s.evs.push([write as u128, rel.wrapping_sub(d.cfg_off) as u128, size as u128, data as u128, cur]);
+            0
+        };
+        if write { 0 } else if size < 8 { v & wmask(w) | (HYP_GARBAGE << (8 * size as u32)) } else { v }
+    })
+}
 
 fn install(g: &Geo, st: &St) {
     hal::reset();
     mmio::clear();
-    if g.tk == 2 {
+    if g.tk == 3 {
+        HYPDEV.with(|h| *h.borrow_mut() = Some(HypDev { st: st.clone(), present: g.present, cfg_off: (PCI_CFG_OFF as usize + g.delta) as u64, cfg_len: g.len }));
+        virtio_drivers::verif::set_hyp_io_backend(Some(hyp_backend));
+    } else if g.tk == 2 {
         hal::add_mmio_window(BAR_PADDR as u64, BAR_SIZE as u64, PBASE);
         mmio::register(R_COMMON, PBASE, 56, Box::new(Common(st.clone())));
         mmio::register(R_ISR, PBASE + 0x100, 4, Box::new(Quiet));
@@ -249,7 +294,12 @@ pub(crate) fn make(g: &Geo, st: &St, wrapped: bool) -> Option<Tp> {
     install(g, st);
     let device_id = st.borrow().device_id;
     let r = catch_unwind(AssertUnwindSafe(|| -> Option<Tp> {
-        if g.tk == 2 {
+        if g.tk == 3 {
+            let cam = PciCam(Rc::new(RefCell::new(PciFn::new(device_id, if g.present { Some((PCI_CFG_OFF + g.delta as u32, g.len as u32)) } else { None }))));
+            let mut root = PciRoot::new(cam);
+            let t = HypPciTransport::new(&mut root, DeviceFunction { bus: 0, device: 1, function: 0 }).ok()?;
+            Some(if wrapped { Tp::S(SomeTransport::HypPci(t)) } else { Tp::H(t) })
+        } else if g.tk == 2 {
             let cam = PciCam(Rc::new(RefCell::new(PciFn::new(device_id, if g.present { Some((PCI_CFG_OFF + g.delta as u32, g.len as u32)) } else { None }))));
             let mut root = PciRoot::new(cam);
             let t = PciTransport::new::<LedgerHal, _>(&mut root, DeviceFunction { bus: 0, device: 1, function: 0 }).ok()?;
@@ -401,7 +451,10 @@ fn closure<T: Transport>(t: &T, code: u8, params: &[Triple]) -> Res {
     }
 }
 
+thread_local! { /// the register reads of the last case (the burst generator places its updates from those of a quiet run)
+    static LAST_EVS: RefCell<Vec<[u128; 5]>> = const { RefCell::new(vec![]) }; }
 fn case_lines(ctx: &mut Ctx, c: &Case, st: &St, res: &[u128], snaps: &[Vec<u8>], evs: &[[u128; 5]]) {
+    LAST_EVS.with(|e| *e.borrow_mut() = evs.to_vec());
     let g = &c.g;
     let mode = ctx.release as u128;
     let cfglen = c.cfg.len() as u128;
@@ -416,7 +469,12 @@ fn case_lines(ctx: &mut Ctx, c: &Case, st: &St, res: &[u128], snaps: &[Vec<u8>],
     for (s, a, o) in &c.tail { ins.extend([*s as u128, *a as u128, *o as u128]); }
     let mut outs = res.to_vec();
     for e in evs { outs.extend(&e[0..4]); }
-    ctx.tr.line(1310, &ins, &outs);
+    // the hypercall transport reads a value of size_of::<T>() bytes with ONE hypercall; the PCI case of the model splits as
+    // safe-mmio does: the same accesses exactly for 1/2/4/8-byte fields (C13_hyp_read_is_pci_read); other closures (the
+    // 6-byte MAC) are judged by the snapshot monitors alone
+    let pow2 = |l: &[Triple]| l.iter().all(|(s, _, _)| matches!(*s, 1 | 2 | 4 | 8));
+    let predicted = g.tk != 3 || (c.code != 2 && pow2(&c.params) && pow2(&c.tail));
+    if predicted { ctx.tr.line(1310, &ins, &outs); } else { ctx.tr.note("rc_hyp_monitors_only"); }
     // net: `new` failed. Either read_consistent(mac) returned the error (also exercised without the later read in
     // the direct scenarios) or the plain read of `status` after it did (7-byte window; refused without any access):
     // what read_consistent returned is then not observable, so there is nothing for the snapshot monitors to judge
@@ -481,7 +539,7 @@ fn user_case(ctx: &mut Ctx, c: &Case, user: u8) -> usize {
             _ => Err(Error::Unsupported),
         }
     }
-    let r = catch_unwind(AssertUnwindSafe(move || match tp { Tp::M(t) => go(t, user), Tp::P(t) => go(t, user), Tp::S(t) => go(t, user) }));
+    let r = catch_unwind(AssertUnwindSafe(move || match tp { Tp::M(t) => go(t, user), Tp::P(t) => go(t, user), Tp::S(t) => go(t, user), Tp::H(t) => go(t, user) }));
     let (snaps, evs) = { let s = st.borrow(); (s.snaps.clone(), s.evs.clone()) };
     case_lines(ctx, c, &st, &enc_res(&r), &snaps, &evs);
     hal::take_log();
@@ -511,6 +569,8 @@ fn geo_for(ctx: &mut Ctx, tk: u8, need: u64) -> Geo {
     let delta = if ctx.rng.chance(1, 2) { 0 } else { 4 };
     match tk {
         2 => { let present = !ctx.rng.chance(1, 12); Geo { tk, present, len: if present { (need + [0u64, 0, 1, 3, 4, 8][ctx.rng.below(6) as usize]).max(4) } else { 4 }, delta } }
+        // the hypercall transport counts the region in bytes, the model's PCI case in words: lengths that are multiples of four
+        3 => { let present = !ctx.rng.chance(1, 12); Geo { tk, present, len: if present { ((need + [0u64, 0, 1, 3, 4, 8][ctx.rng.below(6) as usize]) & !3).max(4) } else { 4 }, delta } }
         _ => Geo { tk, present: true, len: need + [0u64, 0, 0, 1, 4][ctx.rng.below(5) as usize], delta },
     }
 }
@@ -530,12 +590,13 @@ fn base_case(ctx: &mut Ctx, tk: u8, code: u8) -> Case {
     let g = geo_for(ctx, tk, need);
     let n = g.len as usize;
     let gen0 = match ctx.rng.below(4) { 0 => 0, 1 => u32::MAX, 2 => 0xff, _ => ctx.rng.next() as u32 };
-    Case { g, wrapped: ctx.rng.chance(1, 4), gen0, cfg: image(ctx, n, code), sched: vec![], code, params: random_params(ctx, code), tail: vec![], monitors: tk != 0 }
+    // the hypercall transport is run directly and as SomeTransport::HypPci equally often (only the former could override the loop)
+    Case { g, wrapped: if tk == 3 { ctx.rng.chance(1, 2) } else { ctx.rng.chance(1, 4) }, gen0, cfg: image(ctx, n, code), sched: vec![], code, params: random_params(ctx, code), tail: vec![], monitors: tk != 0 }
 }
 
-fn rc_scenarios(ctx: &mut Ctx, users: bool) {
+fn rc_scenarios(ctx: &mut Ctx, users: bool) { rc_scenarios_on(ctx, users, if users { &[1, 2] } else { &[1, 2, 0] }) }
+fn rc_scenarios_on(ctx: &mut Ctx, users: bool, tks: &[u8]) {
     let run = |ctx: &mut Ctx, c: &Case, user: u8| -> usize { if users { user_case(ctx, c, user) } else { rc_case(ctx, c) } };
-    let tks: &[u8] = if users { &[1, 2] } else { &[1, 2, 0] };
     let kinds: Vec<u8> = vec![0, 1, 2, 3, 4];   // users: which driver; direct: which closure
     for &tk in tks {
         for &k in &kinds {
@@ -545,7 +606,7 @@ fn rc_scenarios(ctx: &mut Ctx, users: bool) {
             // quiet device first: how many register reads one attempt makes
             let mut c0 = base_case(ctx, tk, code);
             c0.tail = tail.clone();
-            if c0.g.tk == 2 { c0.g.present = true; c0.g.len = c0.g.len.max(16); c0.cfg = image(ctx, c0.g.len as usize, code); }
+            if c0.g.tk >= 2 { c0.g.present = true; c0.g.len = c0.g.len.max(16); c0.cfg = image(ctx, c0.g.len as usize, code); }
             if c0.g.tk != 2 && (c0.g.len as usize) < 12 { c0.g.len = 12; c0.cfg = image(ctx, 12, code); }
             let n = run(ctx, &c0, k).min(14);
             // every single placement, then every pair of placements, of an update among the reads of the first attempt
@@ -591,11 +652,13 @@ fn rc_scenarios(ctx: &mut Ctx, users: bool) {
 /// memory changed: the hypothesis "fewer than 2^8 changes inside one attempt" of the untorn theorem is necessary
 /// (correspondence lines only, no monitors). Every smaller power of two (a narrower counter would wrap there) must
 /// be noticed, on both transports, wrapped in SomeTransport or not: monitors on.
-fn wrap_cases(ctx: &mut Ctx) {
+fn wrap_cases(ctx: &mut Ctx, hyp: bool) {
     let mut ns: Vec<(u8, usize)> = vec![(2, 255), (2, 256), (2, 257), (2, 512)];
     for k in 1..8 { ns.push((2, 1 << k)); }
     for k in [1usize, 4, 8, 10, 12] { ns.push((1, 1 << k)); }
     if ctx.tier_thorough { ns.push((1, 1 << 13)); ns.push((2, 1 << 13)); }   // (lines of more than ~10^5 numbers overflow the stack of the runner)
+    // the hypercall transport: the same one-byte counter
+    if hyp { ns = vec![(3, 255), (3, 256), (3, 257), (3, 512)]; for k in 1..8 { ns.push((3, 1 << k)); } }
     for (tk, n) in ns {
         for code in [0u8, 2] {
             for wrapped in [false, true] {
@@ -603,7 +666,7 @@ fn wrap_cases(ctx: &mut Ctx) {
                 let cfg = vec![0x11u8; 8];
                 let imgs: Vec<Vec<u8>> = (0..n).map(|i| vec![(0x22 + (i % 200)) as u8; 8]).collect();
                 // slot 0: first generation read, slot 1: first window read, slot 2: second window read
-                let wraps = tk == 2 && n % 256 == 0;
+                let wraps = tk >= 2 && n % 256 == 0;
                 let c = Case { g, wrapped, gen0: ctx.rng.next() as u32, cfg, sched: vec![vec![], vec![], imgs], code, params: vec![], tail: vec![], monitors: !wraps };
                 rc_case(ctx, &c);
                 ctx.tr.note(if wraps { "pci_generation_wraps_inside_attempt" } else { "many_updates_inside_attempt" });
@@ -666,7 +729,82 @@ pub fn run(ctx: &mut Ctx) {
     ctx.tr.scenario("c13-read-consistent");
     rc_scenarios(ctx, false);
     ctx.tr.scenario("c13-generation-wrap");
-    wrap_cases(ctx);
+    wrap_cases(ctx, false);
     ctx.tr.scenario("c13-users");
     rc_scenarios(ctx, true);
+}
+
+// ---------------------------------------------------------------- bursts: an update in each of several consecutive attempts
+/// an image that keeps the closure's shape (9p: the same tag length, a well-formed tag, so that every image evaluates to a
+/// value of its own and a mixture of two images is recognisable)
+fn burst_image(ctx: &mut Ctx, c0: &Case) -> Vec<u8> {
+    let mut v = ctx.rng.bytes(c0.cfg.len());
+    if c0.code == 3 && v.len() >= 2 {
+        v[0] = c0.cfg[0]; v[1] = c0.cfg[1];
+        let l = (u16::from_le_bytes([v[0], v[1]]) as usize).min(v.len() - 2);
+        for i in 0..l { v[2 + i] = b'a' + (ctx.rng.below(26) as u8); }
+    }
+    v
+}
+/// For every driver / closure: a quiet run tells where the attempts lie among the scheduled reads (first generation read at
+/// slot `start`, `period` reads per attempt); then for b = 1..12 one update in each of b consecutive attempts, (a) at the same
+/// position j inside every attempt, for every j (before the first generation read, before each individual field read, before
+/// the second generation read), (b) at a random position inside each attempt.  A loop that gives up after k attempts and
+/// returns the last value is caught by the bursts of length >= k whose last update falls between two field reads.
+fn burst_scenarios(ctx: &mut Ctx, users: bool, tks: &[u8]) {
+    let run = |ctx: &mut Ctx, c: &Case, user: u8| -> usize { if users { user_case(ctx, c, user) } else { rc_case(ctx, c) } };
+    for &tk in tks {
+        for k in 0u8..5 {
+            if users && !cfg!(feature = "alloc") && k != 0 && k != 3 { continue; }
+            for wrapped in [false, true] {
+                let (code, tail) = if users { user_closure(k) } else { (k, vec![]) };
+                let mut c0 = base_case(ctx, tk, code);
+                c0.tail = tail; c0.wrapped = wrapped;
+                c0.g.present = true; c0.g.len = 16; c0.g.delta = if wrapped { 4 } else { 0 };
+                c0.cfg = image(ctx, 16, code);
+                if code == 3 { let l = ctx.rng.range(1, 4) as u8; c0.cfg[0] = l; c0.cfg[1] = 0; c0.cfg = burst_image(ctx, &c0); }
+                if code == 4 {
+                    // two to four fields of 1 / 2 / 4 / 8 bytes inside the window
+                    let n = ctx.rng.range(2, 4);
+                    c0.params = (0..n).map(|_| { let (s, a) = *ctx.rng.pick(&[(1u64, 1u64), (2, 2), (2, 1), (4, 4), (4, 1), (8, 4), (8, 1)]); let off = ctx.rng.below(16 - s + 1); (s, a, off - off % a) }).collect();
+                }
+                // quiet device: where the attempts lie
+                run(ctx, &c0, k);
+                let gens: Vec<usize> = LAST_EVS.with(|e| e.borrow().iter().enumerate().filter(|(_, e)| e[0] == 2).map(|(i, _)| i).collect());
+                if gens.len() < 2 { ctx.tr.note("burst_no_generation_reads"); continue; }
+                let (start, period) = (gens[0], gens[1] - gens[0] + 1);
+                for b in 1..=12usize {
+                    // (a) the same position in every attempt
+                    for j in 0..period {
+                        if !ctx.tier_thorough && period > 6 && !(j < 3 || j + 2 >= period || ctx.rng.chance(1, 3)) { continue; }
+                        let mut c = c0.clone();
+                        c.sched = vec![vec![]; start + b * period];
+                        for a in 0..b { let img = burst_image(ctx, &c0); c.sched[start + a * period + j].push(img); }
+                        run(ctx, &c, k);
+                        ctx.tr.note(&format!("burst_of_{}", b));
+                    }
+                    // (b) a random position inside each attempt (never before its first generation read)
+                    let mut c = c0.clone();
+                    c.sched = vec![vec![]; start + b * period];
+                    for a in 0..b { let j = ctx.rng.range(1, period as u64 - 1) as usize; let img = burst_image(ctx, &c0); c.sched[start + a * period + j].push(img); }
+                    run(ctx, &c, k);
+                    ctx.tr.note(&format!("burst_of_{}", b));
+                }
+            }
+        }
+    }
+}
+
+/// C13 over the x86-64 hypercall transport (`HypPciTransport`, directly and as `SomeTransport::HypPci`)
+pub fn run_hyp(ctx: &mut Ctx) {
+    ctx.tr.scenario("c13-hyp-read-consistent");
+    rc_scenarios_on(ctx, false, &[3]);
+    ctx.tr.scenario("c13-hyp-bursts-direct");
+    burst_scenarios(ctx, false, &[3]);
+    ctx.tr.scenario("c13-hyp-generation-wrap");
+    wrap_cases(ctx, true);
+    ctx.tr.scenario("c13-hyp-users");
+    rc_scenarios_on(ctx, true, &[3]);
+    ctx.tr.scenario("c13-hyp-bursts-users");
+    burst_scenarios(ctx, true, &[3]);
 }
